@@ -224,6 +224,18 @@ func (vc *VC) evalLoc(e SExpr, env *Env) []locSpec {
 				specFail("deref(p): p must be a pointer")
 			}
 			addCell(base.T, pt.Elem(), e.String())
+		case "deref_as":
+			// deref_as(p, T): the cell(s) of a T at the untyped pointer p
+			if len(e.Args) != 2 {
+				specFail("deref_as(p, T)")
+			}
+			base := vc.evalSpec(e.Args[0], env)
+			tn, ok := dottedName(e.Args[1])
+			if !ok {
+				specFail("deref_as: second argument must be a type name")
+			}
+			ty := vc.parseSpecType(tn, env.pkg)
+			addCell(vc.refOf(base), ty.Go, e.String())
 		default:
 			specFail("bad location %s", e)
 		}
